@@ -168,6 +168,21 @@ impl<T: BasicDataCustom, Companion: BasicDataCompanion<T>> BasicGarnishData<T, C
         self.list_assocs(addr)[k]
     }
 
+    /// the three stacks threaded through the data table are well formed
+    pub open spec fn stacks_ok(&self) -> bool {
+        reg_ok(self.data_view(), self.current_register) && val_ok(self.data_view(), self.current_value) && frame_ok(self.data_view(), self.current_frame)
+    }
+    pub open spec fn regs(&self) -> Seq<usize> { reg_seq(self.data_view(), self.current_register) }
+    pub open spec fn values(&self) -> Seq<usize> { val_seq(self.data_view(), self.current_value) }
+    pub open spec fn frames(&self) -> Seq<(usize, Seq<usize>)> { frame_seq(self.data_view(), self.current_frame) }
+    /// nothing but the data table (by appending) and the three stack heads may differ
+    pub open spec fn appended_only(&self, o: &Self) -> bool {
+        &&& o.data_view().is_prefix_of(self.data_view())
+        &&& self.instructions_view() =~= o.instructions_view() && self.jumps_view() =~= o.jumps_view() && self.symbols_view() =~= o.symbols_view()
+        &&& self.expression_symbols_view() =~= o.expression_symbols_view() && self.custom_view() =~= o.custom_view()
+        &&& self.instruction_pointer == o.instruction_pointer && self.data_retention_count == o.data_retention_count
+    }
+
     /// everything that is not heap layout is untouched
     pub open spec fn same_scalars(&self, o: &Self) -> bool {
         &&& self.current_value == o.current_value
@@ -183,6 +198,160 @@ impl<T: BasicDataCustom, Companion: BasicDataCompanion<T>> BasicGarnishData<T, C
         &&& self.custom_data_block.settings == o.custom_data_block.settings
     }
 }
+
+
+// ---------------------------------------------------------------------------------
+// Stacks kept inside the data table (C06, C15): linked chains of bookkeeping cells whose links point backwards
+// ---------------------------------------------------------------------------------
+pub open spec fn chain_rank(cur: Option<usize>) -> nat { match cur { Some(i) => (i + 1) as nat, None => 0 } }
+
+/// operand ("register") stack: Register(previous, value) ... RegisterRoot(value)
+pub open spec fn reg_ok<T: BasicDataCustom>(v: Seq<BasicData<T>>, cur: Option<usize>) -> bool
+    decreases chain_rank(cur)
+{
+    match cur {
+        None => true,
+        Some(i) => i < v.len() && (match v[i as int] {
+            BasicData::Register(p, _) => p < i && reg_ok(v, Some(p)),
+            BasicData::RegisterRoot(_) => true,
+            _ => false,
+        }),
+    }
+}
+
+/// the operand stack as a sequence, top = last
+pub open spec fn reg_seq<T: BasicDataCustom>(v: Seq<BasicData<T>>, cur: Option<usize>) -> Seq<usize>
+    decreases chain_rank(cur)
+{
+    match cur {
+        None => Seq::empty(),
+        Some(i) => if i < v.len() { match v[i as int] {
+            BasicData::Register(p, val) => if p < i { reg_seq(v, Some(p)).push(val) } else { Seq::empty() },
+            BasicData::RegisterRoot(val) => seq![val],
+            _ => Seq::empty(),
+        } } else { Seq::empty() },
+    }
+}
+
+/// appending cells leaves an existing chain as it was (C15 for the operand stack)
+pub proof fn lemma_reg_stable<T: BasicDataCustom>(v: Seq<BasicData<T>>, v2: Seq<BasicData<T>>, cur: Option<usize>)
+    requires reg_ok(v, cur), v.is_prefix_of(v2)
+    ensures reg_ok(v2, cur), reg_seq(v2, cur) == reg_seq(v, cur)
+    decreases chain_rank(cur)
+{
+    match cur {
+        None => {},
+        Some(i) => {
+            assert(v2[i as int] == v[i as int]);
+            match v[i as int] { BasicData::Register(p, _) => { lemma_reg_stable(v, v2, Some(p)); }, _ => {} }
+        }
+    }
+}
+
+pub proof fn lemma_reg_len<T: BasicDataCustom>(v: Seq<BasicData<T>>, cur: Option<usize>)
+    requires reg_ok(v, cur)
+    ensures reg_seq(v, cur).len() <= chain_rank(cur), (cur is Some ==> reg_seq(v, cur).len() >= 1)
+    decreases chain_rank(cur)
+{
+    match cur {
+        None => {},
+        Some(i) => { match v[i as int] { BasicData::Register(p, _) => { lemma_reg_len(v, Some(p)); }, _ => {} } }
+    }
+}
+
+/// input-value stack: Value(previous, value) ... ValueRoot(value)
+pub open spec fn val_ok<T: BasicDataCustom>(v: Seq<BasicData<T>>, cur: Option<usize>) -> bool
+    decreases chain_rank(cur)
+{
+    match cur {
+        None => true,
+        Some(i) => i < v.len() && (match v[i as int] {
+            BasicData::Value(p, _) => p < i && val_ok(v, Some(p)),
+            BasicData::ValueRoot(_) => true,
+            _ => false,
+        }),
+    }
+}
+
+pub open spec fn val_seq<T: BasicDataCustom>(v: Seq<BasicData<T>>, cur: Option<usize>) -> Seq<usize>
+    decreases chain_rank(cur)
+{
+    match cur {
+        None => Seq::empty(),
+        Some(i) => if i < v.len() { match v[i as int] {
+            BasicData::Value(p, val) => if p < i { val_seq(v, Some(p)).push(val) } else { Seq::empty() },
+            BasicData::ValueRoot(val) => seq![val],
+            _ => Seq::empty(),
+        } } else { Seq::empty() },
+    }
+}
+
+pub proof fn lemma_val_stable<T: BasicDataCustom>(v: Seq<BasicData<T>>, v2: Seq<BasicData<T>>, cur: Option<usize>)
+    requires val_ok(v, cur), v.is_prefix_of(v2)
+    ensures val_ok(v2, cur), val_seq(v2, cur) == val_seq(v, cur)
+    decreases chain_rank(cur)
+{
+    match cur {
+        None => {},
+        Some(i) => {
+            assert(v2[i as int] == v[i as int]);
+            match v[i as int] { BasicData::Value(p, _) => { lemma_val_stable(v, v2, Some(p)); }, _ => {} }
+        }
+    }
+}
+
+/// call frames: a frame cell at i (Frame / FrameIndex / FrameRegister / FrameRoot) preceded by JumpPoint(return) at i-1;
+/// a frame records the head of the operand stack at the call
+pub open spec fn frame_prev<T: BasicDataCustom>(d: BasicData<T>) -> Option<usize> {
+    match d { BasicData::Frame(p, _) => Some(p), BasicData::FrameIndex(p) => Some(p), _ => None }
+}
+pub open spec fn frame_reg<T: BasicDataCustom>(d: BasicData<T>) -> Option<usize> {
+    match d { BasicData::Frame(_, r) => Some(r), BasicData::FrameRegister(r) => Some(r), _ => None }
+}
+pub open spec fn is_frame_cell<T: BasicDataCustom>(d: BasicData<T>) -> bool {
+    d is Frame || d is FrameIndex || d is FrameRegister || d is FrameRoot
+}
+pub open spec fn frame_ok<T: BasicDataCustom>(v: Seq<BasicData<T>>, cur: Option<usize>) -> bool
+    decreases chain_rank(cur)
+{
+    match cur {
+        None => true,
+        Some(i) => 1 <= i < v.len() && is_frame_cell(v[i as int]) && v[i - 1] is JumpPoint
+            && reg_ok(v, frame_reg(v[i as int])) && (frame_reg(v[i as int]) matches Some(r) ==> r < i)
+            && (match frame_prev(v[i as int]) { Some(p) => p < i && frame_ok(v, Some(p)), None => true }),
+    }
+}
+/// (return address, operand stack saved at the call) per frame, innermost last
+pub open spec fn frame_seq<T: BasicDataCustom>(v: Seq<BasicData<T>>, cur: Option<usize>) -> Seq<(usize, Seq<usize>)>
+    decreases chain_rank(cur)
+{
+    match cur {
+        None => Seq::empty(),
+        Some(i) => if 1 <= i < v.len() && is_frame_cell(v[i as int]) {
+            let ret = match v[i - 1] { BasicData::JumpPoint(r) => r, _ => 0 };
+            let here = (ret, reg_seq(v, frame_reg(v[i as int])));
+            match frame_prev(v[i as int]) { Some(p) => if p < i { frame_seq(v, Some(p)).push(here) } else { seq![here] }, None => seq![here] }
+        } else { Seq::empty() },
+    }
+}
+pub proof fn lemma_frame_stable<T: BasicDataCustom>(v: Seq<BasicData<T>>, v2: Seq<BasicData<T>>, cur: Option<usize>)
+    requires frame_ok(v, cur), v.is_prefix_of(v2)
+    ensures frame_ok(v2, cur), frame_seq(v2, cur) == frame_seq(v, cur)
+    decreases chain_rank(cur)
+{
+    match cur {
+        None => {},
+        Some(i) => {
+            assert(v2[i as int] == v[i as int]);
+            assert(v2[i - 1] == v[i - 1]);
+            lemma_reg_stable(v, v2, frame_reg(v[i as int]));
+            match frame_prev(v[i as int]) { Some(p) => { lemma_frame_stable(v, v2, Some(p)); }, None => {} }
+        }
+    }
+}
+
+/// a cell that is bookkeeping only (no Garnish value lives there)
+pub open spec fn is_bookkeeping<T: BasicDataCustom>(d: BasicData<T>) -> bool { basic_type_of(d) == GarnishDataType::Invalid }
 
 /// the Garnish type of a heap cell (what get_data_type reports); bookkeeping cells are Invalid
 pub open spec fn basic_type_of<T: BasicDataCustom>(d: BasicData<T>) -> GarnishDataType {
